@@ -28,7 +28,8 @@ ASSUMPTIONS = [
 OPEN_STATEMENTS = [
     'qubit_sparse_sound is proved per term (qubit_term_matrix_sound: Kronecker chain of a Pauli string = its Spec '
     'matrix, every n); the coordinate assembly over several terms (values in CSC order zipped with the swapped '
-    'row-major nonzero() indices, duplicate summation, eliminate_zeros) and jw_sparse_sound are Corr + oracle only '
+    'row-major nonzero() indices) and the product of ladder matrices over a fermionic term (jw_sparse_sound; each '
+    'ladder matrix is proved: jw_ladder_sound; the final duplicate summation is proved: coo_assembly_sound) are Corr + oracle only '
     '(all entries compared exactly on <= 5 qubits)',
     'matvec_sound (matvec_term_sound + matvec_linear), diagonal_term_sound and parallel_matvec_sound are proved at the '
     'level stated in Properties/C06.lean (per term resp. per entry); the summation of the diagonal over the terms '
